@@ -416,6 +416,7 @@ Proof.
   - dmatch; cbn [fst]; st_simpl; auto.
   - dmatch; cbn [fst]; st_simpl; auto.
   - cbn [fst]. st_simpl. auto.
+  - dmatch; cbn [fst]; st_simpl; auto.
 Qed.
 
 (* ------------------------------------------------------------------ C09: tracker invariant *)
@@ -930,6 +931,7 @@ Proof.
   - dmatch; cbn [fst snd]; st_simpl; (split; [exact INV | intros q; reflexivity]).
   - dmatch; cbn [fst snd]; st_simpl; (split; [exact INV | intros q; reflexivity]).
   - cbn [fst snd]; st_simpl; (split; [exact INV | intros q; reflexivity]).
+  - dmatch; cbn [fst snd]; st_simpl; (split; [exact INV | intros q; reflexivity]).
 Qed.
 
 Lemma ev_ok_now cap e s v i : ev_ok cap e (with_now s v) i = ev_ok cap e s i.
